@@ -162,6 +162,13 @@ func (a *remoteAuthorizer) Execute(ctx heimdall.Context, sub *subject.Subject) e
 			if err = json.Unmarshal(entry, &ai); err == nil {
 				logger.Debug().Msg("Reusing authorization information from cache")
 
+				// the response has been cached after a successful verification using the expressions
+				// being in place for the rule, the request has been processed by. The expressions
+				// of the current rule may differ.
+				if err = a.verify(ctx, ai.Payload); err != nil {
+					return err
+				}
+
 				authInfo = &ai
 			}
 		}
